@@ -300,7 +300,7 @@ def evalCmd (body : String) : String :=
     | some [.atom b], some [.atom r], some [t], some [nm] =>
       (match (if b == "default" then some defaultBudget else readNat? b), readNat? r, readOp rdFuel t with
        | some budget, some rng, some ast =>
-         (match readVal rdFuel { heap := [], objs := [] } nm with
+         (match readVal rdFuel { heap := #[], objs := [] } nm with
           | some (.ref namesAddr, st1) =>
             (match readProbes rdFuel st1 ((field? "probes" es).getD []) with
              | none => "bad-probes"
@@ -309,7 +309,13 @@ def evalCmd (body : String) : String :=
                | none => "bad-rx"
                | some (rx, st3) =>
                  let w : World := { heap := st3.heap, vms := [], log := [], rng := rng, rx := rx, probes := probes }
-                 let c0 := initCfg w [] namesAddr budget ast
+                 let astNames : List (Name × Op) := ((field? "astnames" es).getD []).filterMap (fun e =>
+                   match e with
+                   | .list [.atom n, t] => (match unhex n, readOp rdFuel t with
+                     | some nm, some op => some (nm, op)
+                     | _, _ => none)
+                   | _ => none)
+                 let c0 := initCfg w [] namesAddr budget ast astNames
                  let c := runUntil maxSteps c0
                  match c.ctl with
                  | .failed (.unmodelled why) => "U " ++ why
@@ -429,7 +435,7 @@ def sessionCmd (body : String) : String :=
     let f := body.length + 16
     match field? "cache" es, field? "heap" es, field? "calls" es, field? "parses" es with
     | some [.atom ck], some [hv], some calls, some ps =>
-      (match readVal f { heap := [], objs := [] } hv, readParses f ps with
+      (match readVal f { heap := #[], objs := [] } hv, readParses f ps with
        | some (.tuple ms, st), some tbl =>
          let maps := ms.filterMap (fun v => match v with | .ref a => some a | _ => none)
          let w : World := { heap := st.heap, vms := [], log := [], rng := 1, rx := [], probes := [] }
